@@ -1,6 +1,7 @@
 package checks
 
 import (
+	"crypto/tls"
 	"fmt"
 	"strings"
 	"testing"
@@ -107,6 +108,22 @@ func genAuthReq(t *sim.Tape, pw string, cid int, i int) authReq {
 		if t.Draw(3, "wrongpass") == 0 {
 			pass = dict[t.Draw(len(dict), "cand")]
 		}
+		if len(pw) > 1 && t.Draw(3, "split") == 2 {
+			// the password split over the two arguments (at any position; around a separator character with the
+			// separator dropped, kept in front of the user name or behind it): neither part is the password
+			k := 1 + t.Draw(len(pw)-1, "splitat")
+			user, pass = pw[:k], pw[k:]
+			if i := strings.IndexAny(pw, ":|/= \x00"); i > 0 && i < len(pw)-1 {
+				switch t.Draw(4, "splitkind") {
+				case 1:
+					user, pass = pw[:i], pw[i+1:]
+				case 2:
+					user, pass = pw[i:i+1]+pw[:i], pw[i+1:]
+				case 3:
+					user, pass = pw[:i+1], pw[i+1:]
+				}
+			}
+		}
 		r.Args = bulk(authName, user, pass)
 		r.Either = pass == pw && (user == "" || user == "default")
 		if pass == pw && user == "" {
@@ -200,7 +217,7 @@ func (ac *authConn) modelAt(idx int, o *Outcome) (authorized bool, db int, cfg m
 func runC08(t *testing.T, tape *sim.Tape, tier string) *Outcome {
 	o := &Outcome{}
 	cl := newCluster(tape, o)
-	pws := []string{"password", "s3cr3t", "P", "pass word", "päss", "a\x00b"}
+	pws := []string{"password", "s3cr3t", "P", "pass word", "päss", "a\x00b", "ops:s3cret", "k=v|w", "dir/sub/leaf"}
 	pw := pws[tape.Draw(len(pws), "pw")]
 	d := &wl.Double{}
 	cl.useServer(d)
@@ -213,6 +230,12 @@ func runC08(t *testing.T, tape *sim.Tape, tier string) *Outcome {
 		cl.Srv.ServerKey = pki.Server.KeyPEM
 		cl.Srv.CACerts = pki.CA.CertPEM
 		o.stat("runs_with_tls_port", 1)
+	}
+	// half of the TLS runs: the TLS clients share a session cache (later connections resume earlier sessions)
+	var sessions tls.ClientSessionCache
+	var lastTLS *tlsClient
+	if withTLS && tape.Draw(2, "sessioncache") == 1 {
+		sessions = tls.NewLRUClientSessionCache(8)
 	}
 	how := tape.Draw(4, "viarestart")
 	// a quarter of the runs: the application installs its own AUTH handler, which decides like the built-in one
@@ -362,7 +385,18 @@ func runC08(t *testing.T, tape *sim.Tape, tier string) *Outcome {
 			items = append(items, resp.Ar(r.Args...).Encode())
 		}
 		if withTLS && tape.Draw(2, "viatls") == 1 {
-			ac.tc = cl.addTLSClient(fmt.Sprintf("tcli%d", j), addrOf(tlsPort), pki.ClientConfig(pki.Right), items)
+			cfg := pki.ClientConfig(pki.Right)
+			if sessions != nil {
+				// the TLS clients of this run share a session cache and connect one after the other, so that the
+				// later ones resume the session of an earlier one (the password gate is per connection all the same)
+				cfg.ClientSessionCache = sessions
+			}
+			ac.tc = cl.addTLSClient(fmt.Sprintf("tcli%d", j), addrOf(tlsPort), cfg, items)
+			if prev := lastTLS; sessions != nil && prev != nil {
+				ac.tc.DialAfter = func() bool { return prev.Finished || len(prev.Vals) >= 1 || prev.HandshakeErr != nil || prev.Refused }
+				o.stat("tls_connections_after_an_earlier_session", 1)
+			}
+			lastTLS = ac.tc
 			ac.tc.Chunk = tape.Draw(3, "chunkmode")
 			o.stat("connections_on_tls_port", 1)
 			order = append(order, ac)
@@ -458,7 +492,7 @@ func init() {
 	register(&Check{
 		ID: "C08", Bubble: true, Run: runC08,
 		Runs:   map[string]int{"quick": 30000, "thorough": 1000000},
-		Rule:   "a case is one run of the full server with a required password (set before Start, or by Restart after one to three earlier generations each without password, with another password - which then is one of the wrong candidates - or already with the final one) and 1..3 connections (in a quarter of the runs the TLS port is open too and each connection goes through it with probability 1/2, as a real crypto/tls client with an accepted certificate) each sending 1..8 (thorough ..16) requests over {AUTH with the exact password, with each dictionary candidate ('' , prefixes, extension, case swap, NUL/CRLF/space variants, doubled, periodic or padded continuations whose length equals the real one modulo 2^8), null/missing argument, two-argument forms, SELECT, CONFIG SET/GET, PING/ECHO, data commands} under a seeded request- and byte-granularity interleaving; a per-connection authorization model is checked inside every handler call and over every reply; distinct = distinct event-log hashes; all runs non-trivial",
+		Rule:   "a case is one run of the full server with a required password (set before Start, or by Restart after one to three earlier generations each without password, with another password - which then is one of the wrong candidates - or already with the final one) and 1..3 connections (in a quarter of the runs the TLS port is open too and each connection goes through it with probability 1/2, as a real crypto/tls client with an accepted certificate; in half of those runs the TLS clients share a session cache and connect one after the other, so later ones resume) each sending 1..8 (thorough ..16) requests over {AUTH with the exact password, with each dictionary candidate ('' , prefixes, extension, case swap, NUL/CRLF/space variants, doubled, periodic or padded continuations whose length equals the real one modulo 2^8), null/missing argument, two-argument forms (also the password split over user name and password, around its separator characters), SELECT, CONFIG SET/GET, PING/ECHO, data commands} under a seeded request- and byte-granularity interleaving; a per-connection authorization model is checked inside every handler call and over every reply; distinct = distinct event-log hashes; all runs non-trivial",
 		Real:   []string{"redis.Server Start (authenticator registration), accept loop, connection goroutines, AUTH executor, Server.Auth, auth.AuthManager, ClearTextPasswordAuthenticator, gate in executeCommand"},
 		Stub:   []string{"network: simulated", "user command handler: recording double (parks at entry)"},
 		Assume: []string{"two-argument AUTH with user '' or 'default' and the exact password may succeed or fail", "QUIT before authorization is not generated"},
